@@ -693,12 +693,19 @@ def evaluate_cases(prop, case_iter, stats, max_mismatches=25, sample_every=None,
                 mismatches.append(Mismatch(c, exp, obs))
         buf.clear()
 
+    t_start = time.time()
+    budget = float(os.environ.get("VERIF_FAILING_RUN_BUDGET", "300"))
     for c in case_iter:
         buf.append(c)
         if sum(len(x.lines) for x in buf) >= prop.chunk:
             flush()
             n_prop = sum(1 for m in mismatches if m.case.kind == "prop")
             if n_prop >= max_mismatches:
+                break
+            if n_prop and time.time() - t_start > budget:
+                # a failing input is in hand and the run is slow (changed code can make every case crawl): report now.
+                # (A run without property mismatches is never cut short.)
+                stats.tags["cut-short-after-failing-input"] = 1
                 break
             if len(mismatches) - n_prop > 400:
                 # keep memory bounded: drop surplus model-level disagreements (they are counted below)
